@@ -486,6 +486,17 @@ func redactXml(obj interface{}, path string) (xmlValue []byte, err error) {
 		return
 	}
 
+	// SetValueForPath sets the last key of the path on its parent whether or not the parent has it: for
+	// an element that is not in the document it added one holding the marker.
+	var targets []interface{}
+	targets, err = mv.ValuesForPath(path)
+	if err == nil && len(targets) < 1 {
+		err = errors.New("No match")
+	}
+	if err != nil {
+		return
+	}
+
 	err = mv.SetValueForPath(REDACTED, path)
 	if err != nil {
 		return
